@@ -121,6 +121,9 @@ def gen(rng, kind):
 
 
 CATALOGUE_VALUES = [None, True, False, 0, 1, 1234, -1, 2 ** 70, 0.5, "", "A", "AAAAA", "é", "AQID", "public-key", [], ["AQID"], [1],
+                    # near misses of the enumerated strings: other spellings are other (unknown) values
+                    "cross_platform", "crossPlatform", "CROSS-PLATFORM", "Platform", " platform", "platform ", "plat-form",
+                    "public_key", "Public-Key", "publickey", "USB", "internal ", "Hybrid",
                     {}, {"a": 1}, {"status": "x"}, "a b", "=", "AQID=", "-_-_"]
 
 
